@@ -128,6 +128,9 @@ impl AddrBox {
 
     /// Parse the textual form used in the ops (`/p2p/P<n>` placeholders).
     fn addr(&self, text: &str) -> Option<Multiaddr> {
+        if !text.starts_with('/') || text.len() < 2 {
+            return None;
+        }
         let mut out = String::new();
         let mut prev_p2p = false;
         for seg in text.split('/').skip(1) {
